@@ -14,6 +14,8 @@ SPECIAL = [
     'CC(=O)[O-].[Na+]', 'C[N+](C)(C)C.[Br-]', '[O-]S(=O)(=O)[O-].[Na+].[Na+]', 'OP(=O)([O-])[O-].[Ca+2]',
     '[13CH4]', '[2H]O[2H]', 'C[13C](=O)O', '[18OH2]', 'CC[15NH2]', '[14CH3]c1ccccc1', 'C(Cl)(Cl)([2H])Cl',
     '[CH3]', 'C[CH2]', 'C[O]', 'CC(C)[CH]C', 'C[N](C)[O]', '[O][O]', 'c1ccccc1[CH2]', 'C[S]',
+    # two features on one atom: isotope + radical, isotope + charge, isotope + configuration
+    'C[13CH2]', 'C[13CH]C', 'C[18O]', 'C[15NH]', 'C[15NH3+]', 'CC(=O)[18O-]', 'C[13CH2-]', 'N[13C@@H](C)C(O)=O', 'C[14CH]c1ccccc1',
     'C[C@H](N)C(=O)O', 'C[C@@H](N)C(=O)O', 'N[C@@H](Cc1ccccc1)C(=O)O', 'C[C@H](O)[C@@H](N)C(=O)O',
     'C[C@@](F)(Cl)Br', 'F[C@](Cl)(Br)I', '[C@H](F)(Cl)Br', 'OC[C@H]1OC(O)[C@H](O)[C@@H](O)[C@@H]1O',
     'C/C=C/C', 'C/C=C\\C', 'F/C=C/F', 'C/C=C/C=C/C', 'C/C=C\\C=C/C', 'CC/C=C(/C)CC', 'C/C(F)=C(/Cl)Br',
@@ -65,7 +67,7 @@ GROUPS = ['O', 'N', 'F', 'Cl', 'Br', 'I', 'C#N', 'C(=O)O', 'C(=O)[O-]', 'C(=O)N'
           'C#C', 'C=C', '[Si](C)(C)C', 'B(O)O', 'P(=O)(O)O', 'OP(=O)(O)O', 'S(C)=O', 'S(=O)(=O)C', 'C(=N)N', 'NC(N)=N',
           'N=C=O', 'N=C=S', 'ON', 'NO', 'NN', 'C(=S)N', 'C(O)=N', 'C=NO', '[N+]#N', 'OO', 'S', '[S-]', '[O-]', 'C(Cl)=O',
           '[C@H](F)Cl', '[C@@H](F)Cl', '[C@](C)(F)Cl', '/C=C/C', '/C=C\\C', '/C=C/Cl', 'C=[C@]=CC', 'C=[C@@]=CC',
-          '[13CH3]', '[2H]', 'O[2H]', '[15NH2]', '[CH2]', '[O]', 'O~[Fe]', 'N~[Cu]', '[Mg]Br', '[Li]', '[Hg]Cl']
+          '[13CH3]', '[2H]', 'O[2H]', '[15NH2]', '[CH2]', '[O]', '[13CH2]', '[18O]', '[15NH3+]', 'O~[Fe]', 'N~[Cu]', '[Mg]Br', '[Li]', '[Hg]Cl']
 
 COUNTER_IONS = ['[Na+]', '[K+]', '[Cl-]', '[Br-]', '[NH4+]', '[O-]C(C)=O', 'C[N+](C)(C)C', '[Ca+2]', '[O-]S([O-])(=O)=O',
                 'O', 'CO', 'ClCCl', '[I-]', '[Li+]', 'F[B-](F)(F)F', 'OC(=O)C(F)(F)F']
